@@ -140,6 +140,25 @@ func runC13(r *run) {
 			a := w.args(c[0], c13Ctx())
 			emit(caseT{"render", append(a, "-", "-", hx(obsOK(c[1])))})
 		}
+		// a parameter bound to nothing (omitted, or a nil argument) stays bound in every nested scope
+		// of the body, whatever the caller's context holds under that name
+		for _, c := range [][2]string{
+			{"{% macro show(title) %}:{% for i in \"ab\" %}<{{ title }}{{ i }}>{% endfor %}({{ title }}){% with z=1 %}{{ title }}{% endwith %}{% endmacro %}{{ show() }}{{ show(nothere) }}{{ show(\"t\") }}", ":<a><b>():<a><b>():<ta><tb>(t)t"},
+			{"{% macro outer(title) %}{% macro inner() %}[{{ title }}]{% endmacro %}{% for i in \"a\" %}{{ inner() }}{% endfor %}{% endmacro %}{{ outer() }}", "[]"},
+		} {
+			a := (&world{}).args(c[0], append(c13Ctx(), ctxEntry{"title", gStr("PAGE")}))
+			emit(caseT{"render", append(a, "-", "-", hx(obsOK(c[1])))})
+		}
+		// macros and the autoescape tag: the tag is no scope (a macro defined inside it is callable
+		// after it), and a macro's body follows the autoescaping in force where it is called / defined
+		// as pongo2 has it (compared with the model)
+		for _, src := range []string{"{% autoescape off %}{% macro m(x) %}[{{ x }}]{% endmacro %}{% endautoescape %}{{ m(\"a&b\") }}{{ m(1, 2) }}",
+			"{% macro m(x) %}[{{ x }}]{% endmacro %}{% autoescape off %}{{ m(\"a&b\") }}{% endautoescape %}{{ m(\"c&d\") }}",
+			"{% autoescape on %}{% import \"hl.tpl\" heading %}{% endautoescape %}{{ heading(\"x&y\") }}",
+			"{% autoescape off %}{% macro m(x) %}[{{ x }}]{% endmacro %}{{ m(\"a&b\") }}{% endautoescape %}{% autoescape on %}{{ m(\"a&b\") }}{% endautoescape %}"} {
+			w := &world{files: []map[string]string{{"hl.tpl": "{% macro heading(t) export %}<h>{{ t }}</h>{% endmacro %}"}}}
+			emit(caseT{"render", w.args(src, c13Ctx())})
+		}
 		// a context key with the name of a macro: the macro (local, imported or aliased alike) is
 		// what the name means in the template
 		for _, c := range [][2]string{
